@@ -95,7 +95,9 @@ class SafeLearner(Learner):
             #now do a small "test" to determine the major order.
             #n_cols will always be >= 2 so we know we can distinguish
             class Batch(list): is_batch=True
-            pred   = predictor(Batch([context[0]]),Batch([actions[0]]))
+            #context (or actions) is None rather than a batch when the environment has none
+            row0   = lambda item: Batch([item[0]]) if is_batch(item) else item
+            pred   = predictor(row0(context),row0(actions))
             n_rows = 1
 
         return 'row' if len(pred) == n_rows else 'col'
